@@ -122,12 +122,11 @@ func ruleHeadAdvancesWithEveryLog(c *Ctx, rule string) {
 			continue
 		}
 		var stores []ssa.Instruction
-		for _, b := range fn.Blocks {
-			for _, ins := range b.Instrs {
-				if v, _, ok := storeToField(ins, m.fLastLog); ok {
-					if _, isNil := v.(*ssa.Const); !isNil {
-						stores = append(stores, ins)
-					}
+		// the function and the helpers of the package it calls (`commander.chainLog(…)`)
+		for _, fi := range flattenCalls(fn, pkgCommand, 2) {
+			if v, _, ok := storeToField(fi.ins, m.fLastLog); ok {
+				if _, isNil := v.(*ssa.Const); !isNil {
+					stores = append(stores, fi.ins)
 				}
 			}
 		}
@@ -148,7 +147,18 @@ func ruleHeadAdvancesWithEveryLog(c *Ctx, rule string) {
 			isStore[s] = true
 		}
 		bad := token.NoPos
+		storesIn := map[*ssa.Function]bool{}
+		for _, s := range stores {
+			storesIn[s.Parent()] = true
+		}
 		c.RunPaths(fn, 0, &PathRule{
+			MaxDepth: 2,
+			Inline: func(call ssa.CallInstruction) []*ssa.Function {
+				if g := staticCallee(call); g != nil && g != fn && storesIn[g] {
+					return []*ssa.Function{g}
+				}
+				return nil
+			},
 			Step: func(pc *PathCtx, s uint64, ins ssa.Instruction) uint64 {
 				if isStore[ins] {
 					return s | 1
